@@ -62,11 +62,14 @@ MemParts(d, b, e) ==
 
 ProbeOK(img, p) == Has(p, "byte") /\ CellAt(img, p.addr) = <<p.byte, p.perm>>
 
-\* diagnosis: the cells of segments at whose start address a LATER zero-size PT_LOAD is placed
+\* diagnosis: the cells of a segment from the address of a LATER zero-size PT_LOAD that lies
+\* inside that segment onwards (a zero-size segment must not change the image at all)
 ErasedByEmpty(d, b) ==
-  UNION { Surviving(d, b, k) :
-          k \in { k \in LoadIdx(d) : \E j \in LoadIdx(d) : j > k /\ d.segs[j].memsz = 0
-                                                            /\ d.segs[j].vaddr = d.segs[k].vaddr } }
+  UNION { { c \in Surviving(d, b, k) :
+              \E j \in LoadIdx(d) : /\ j > k /\ d.segs[j].memsz = 0
+                                     /\ Covers(d.segs[k], b, SegStart(d.segs[j], b))
+                                     /\ Ltu(AddrBits, SubA(c[1], SegStart(d.segs[j], b)), A(d.segs[k].memsz)) } :
+          k \in LoadIdx(d) }
 
 MemoryOK(d, b, e) ==
   /\ Clean(e.res)
